@@ -239,6 +239,9 @@ def key_oracle(c, o):
     <grp>/props/<name> with an array `values`, an array `missing` when a value is missing, an array `data` when it is variable-length."""
     ki = o.get("kinfo")
     if ki is None:
+        if o.get("keys") == "undecodable":
+            fmt = c["fmt"] if c["kind"] == "forward" else c["variant"]["fmt"]
+            return f"the store's keys cannot be read as a zarr format {fmt} store: {o.get('keys_error')}"
         return None
     nodes = ki["nodes"]
     if nodes.get("") != ["group"]:
@@ -299,6 +302,8 @@ def run_impl(c):
     # the RAW KEYS of the same store (documents parsed, chunks decoded by the harness: harness/keystore.py), for the key-level tie
     raw = kst.try_raw_dump(st, it, c["fmt"] if c["kind"] == "forward" else c["variant"]["fmt"])
     obs["keys"] = "undecodable" if raw is None else len(raw["items"])
+    if raw is None:
+        obs["keys_error"] = kst.LAST_ERROR[0]
     if raw is not None:
         obs["kinfo"] = key_info(raw)
     try:
